@@ -3265,11 +3265,19 @@ def start_workers(ck: Ck, groups: list[list[tuple[str, Callable[..., Any], tuple
         rd, wr = multiprocessing.Pipe(duplex=False)
         sys.stdout.flush()
         sys.stderr.flush()
+        parent_pid = os.getpid()
         pid = os.fork()
         if pid == 0:
             code = 0
             try:
                 rd.close()
+                try:        # die with the parent (e.g. an outer `timeout` kills it): no orphan keeps a core busy
+                    import ctypes
+                    ctypes.CDLL('libc.so.6', use_errno=True).prctl(1, signal.SIGKILL)    # PR_SET_PDEATHSIG
+                    if os.getppid() != parent_pid:       # the parent went away between fork and prctl
+                        os._exit(1)
+                except Exception:   # noqa: BLE001
+                    pass
                 for name, fn, args in group:
                     box = StageCk(ck, name)
                     box._ties_before = box._ties_before or escalate
